@@ -44,6 +44,11 @@ pub enum FeR {
     /// (per limb 0 -> 0, 1 -> 1, 2 -> 2^63, 3 -> 2^64-1; top limb only 0/1): value = pattern * R^-1 mod p.
     /// Puts all-ones / single-bit limbs into the limbs the carry chains actually see.
     MontPattern(Vec<u8>),
+    /// the element whose CANONICAL limbs are combinations of two words: per limb 0 -> 0, 1 -> w1, 2 -> w2,
+    /// 3 -> w1^w2, 4 -> w1+w2 (wrapping), 5 -> !w1, 6 -> w1 again shifted by one limb position is covered by
+    /// the pattern itself; top limb masked to stay below the modulus. Repeated / cancelling limbs defeat
+    /// limb-folding shortcuts (xor / sum of limbs used as a zero or equality test).
+    LimbCombo(u64, u64, Vec<u8>),
 }
 
 impl FeR {
@@ -92,6 +97,23 @@ impl FeR {
                 let rinv = r.modpow(&(p - Z::from(2u32)), p);
                 (m * rinv) % p
             }
+            FeR::LimbCombo(w1, w2, pat) => {
+                let top_bits = (p.bits() - 1) % 64; // bits available in the top limb without reaching p
+                let limbs: Vec<u64> = (0..nlimbs)
+                    .map(|i| {
+                        let v = match pat.get(i).copied().unwrap_or(0) % 6 {
+                            0 => 0,
+                            1 => *w1,
+                            2 => *w2,
+                            3 => *w1 ^ *w2,
+                            4 => w1.wrapping_add(*w2),
+                            _ => !*w1,
+                        };
+                        if i == nlimbs - 1 { v & ((1u64 << top_bits) - 1) } else { v }
+                    })
+                    .collect();
+                crate::adapt::limbs_to_z(&limbs)
+            }
         };
         v % p
     }
@@ -102,6 +124,7 @@ impl FeR {
             FeR::Limbs(_) => "uniform",
             FeR::Small(_) | FeR::Two => "small",
             FeR::MontPattern(_) => "montgomery-limb-pattern",
+            FeR::LimbCombo(_, _, _) => "canonical-limb-combination",
             _ => "boundary",
         }
     }
@@ -130,6 +153,7 @@ pub fn fe_strategy(nlimbs: usize) -> BoxedStrategy<FeR> {
         1 => Just(FeR::MontRM1),
         2 => any::<u16>().prop_map(FeR::Small),
         4 => proptest::collection::vec(0u8..4, nlimbs).prop_map(FeR::MontPattern),
+        3 => (any::<u64>(), any::<u64>(), proptest::collection::vec(prop_oneof![3 => Just(0u8), 3 => Just(1u8), 2 => Just(2u8), 2 => Just(3u8), 1 => Just(4u8), 1 => Just(5u8)], nlimbs)).prop_map(|(a, b, p)| FeR::LimbCombo(a, b, p)),
         14 => proptest::collection::vec(any::<u64>(), nlimbs).prop_map(FeR::Limbs),
     ]
     .boxed()
